@@ -126,6 +126,7 @@ def overflow_multiset():
 
 
 def case_strategy():
+    vals.LABEL_KEYS[0] = True  # C04/C05 stop at inferred types: dict keys may be instances of a str subclass with its own __str__
     general = st.tuples(vals.shaped_multiset(), st.integers(0, 1000)).map(lambda p: (p[0], vals.k_for(p[0], p[1])))
     return st.tuples(
         st.one_of(general, general, general, overflow_multiset()),
